@@ -1,6 +1,7 @@
 """C01 — lexing and parsing are total."""
 from . import suite, gen_lex, gen_prog
 from .propbase import *
+from . import basesuites
 
 
 def deep_nesting(depths):
@@ -22,6 +23,7 @@ def deep_nesting(depths):
 
 def run(chk):
     proved = setup(chk, "C01")
+    basesuites.run_uni(chk)
     rng = rng_for(chk, 1)
     quick = chk.tier == "quick"
     texts = list(gen_lex.exhaustive(3 if quick else 4))
